@@ -4,13 +4,13 @@ from vt import chartgen as cg, hosts
 ID = 'C22'
 ENGINE = 'chartgen+model'
 RULE = ('generated charts on plain, instrumented, queued and active-object hosts (spied or not): between steps is_in(X) is asked for every '
-        'state X and child_state(P) for every state P; is_in must be true exactly for the current state and its ancestors in the spec '
+        'state X and child_state(P) for every state P, and for the chart\'s own top (chart.top, a fresh bound-method object on every access); is_in must be true exactly for the current state and its ancestors in the spec '
         'tree, child_state(P) must return the child of P on the active path (P itself when current) and must fail when P is not on the '
         'path; a TWIN chart driven with the same script but never queried must produce the same ground-truth logs, rest states, spy and '
         'trace (so the queries changed nothing). distinct_nontrivial = distinct (host config, current depth, query kind, answer) tuples')
 CASES = {'quick': 1500, 'thorough': 100000}
-BUDGET = {'quick': 40, 'thorough': 300}
-REQUIRE = {'is_in_queries': 20000, 'child_state_queries': 20000, 'child_state_off_path': 2000, 'twin_comparisons': 1000}
+BUDGET = {'quick': 150, 'thorough': 300}
+REQUIRE = {'is_in_queries': 20000, 'child_state_queries': 20000, 'child_state_off_path': 2000, 'twin_comparisons': 1000, 'queries_about_top': 2000}
 ASSUME = ['queries are issued between steps only (the statement quantifies there); on active objects while the object is idle']
 CFGS = [{'host': 'plain', 'spied': False}, {'host': 'plain', 'spied': True}, {'host': 'instr', 'spied': True},
         {'host': 'queued', 'spied': True, 'instrumented': True}, {'host': 'queued', 'spied': False, 'instrumented': False},
@@ -29,7 +29,7 @@ def run_case(ctx, n):
   qsteps = [k for k in range(-1, len(script)) if rng.random() < 0.6] or [-1]
   queries = {}
   for k in qsteps:
-    qs = [('is_in', i) for i in range(N)] + [('child_state', i) for i in range(N)]
+    qs = [('is_in', i) for i in range(N)] + [('child_state', i) for i in range(N)] + [('is_in', 'top'), ('child_state', 'top')]
     rng.shuffle(qs)
     queries[k] = qs
   try:
@@ -57,6 +57,14 @@ def run_case(ctx, n):
     cur = cur_at[k]
     path = cg.anc(spec, cur)          # cur, parent, ...
     x = q[1]
+    if x == 'top':
+      # top encloses every state: is_in(top) is always true, child_state(top) is the outermost state of the active path
+      ctx.count('queries_about_top')
+      exp = True if q[0] == 'is_in' else names[path[-1]]
+      if status != 'ok' or val != exp or (q[0] == 'is_in' and val is not True):
+        ctx.violation('C22/%s-answer' % q[0].replace('_', '-'), '%s(chart.top) with current state %s answered %s/%r, expected %r' % (q[0], names[cur], status, val, exp), dict(wit, after_step=k))
+        return
+      continue
     if q[0] == 'is_in':
       ctx.count('is_in_queries')
       exp = x in path
